@@ -328,3 +328,109 @@ func VerifC01RelevanceFilter() {
 	}
 	rt.Reach("end")
 }
+
+// VerifC09ReceivePending: an unconfirmed transaction announced by the node goes through the real filterTx with no
+// block (proccessReceivedTx's core) for a wallet that owns hW: it spends output idx of a known transaction paying
+// hIn and pays hOut. When it concerns the wallet it is recorded as pending exactly once: the coin it spends is
+// marked spent-by-pending, the coin it creates is a pending credit only, nothing confirmed changes; announcing it a
+// second time changes nothing. When it does not concern the wallet nothing is recorded.
+func VerifC09ReceivePending() {
+	st := txmgr.VerifNewStoresWithKeystoreManager([]byte("DJr6BomK"))
+	const W = "ac10wwwwwwwwwwwwwwwwwwwwwwwwwwwwwwwwwwwwww"
+	hW, hIn, hOut := rt.NondetBytes(32), rt.NondetBytes(32), rt.NondetBytes(32)
+	text := func(sh []byte) string {
+		ps, err := utils.ParsePkScript(c01P2WSH(sh), config.ChainParams)
+		rt.Assert(err == nil, "harness-script-parses")
+		return ps.StdEncodeAddress()
+	}
+	keystore.VerifAddWallet(st.Ks, W)
+	keystore.VerifAddAddressWithHash(st.Ks, W, text(hW), hW)
+	done := make([]byte, 9)
+	binary.BigEndian.PutUint64(done, txmgr.WalletSyncedDone)
+	st.WS.Set([]byte(W), done)
+	c01TxReg, c01TxIDs, c01TxSeeds, c01TxBytesReg = nil, nil, nil, nil
+	for i := 0; i < 2; i++ {
+		var id wire.Hash
+		copy(id[:], rt.NondetBytes(32))
+		c01TxSeeds = append(c01TxSeeds, id)
+	}
+	rt.Assume(c01TxSeeds[0] != c01TxSeeds[1])
+	prev := wire.NewMsgTx()
+	prev.AddTxIn(wire.NewTxIn(&wire.OutPoint{Index: 7}, nil))
+	prev.AddTxOut(wire.NewTxOut(5, c01P2WSH(hIn)))
+	prevID := prev.TxHash()
+	tx := wire.NewMsgTx()
+	tx.AddTxIn(wire.NewTxIn(&wire.OutPoint{Hash: prevID, Index: 0}, nil))
+	tx.AddTxOut(wire.NewTxOut(4, c01P2WSH(hOut)))
+	rt.Assume(!blockchain.IsCoinBaseTx(tx))
+	txID := tx.TxHash()
+	inMine, outMine := bytes.Equal(hIn, hW), bytes.Equal(hOut, hW)
+	if inMine {
+		st.VerifPutStandardCredit(W, wire.OutPoint{Hash: prevID, Index: 0}, 3, wire.Hash{}, 5, hIn)
+	}
+	sub := func(name string) int { return len(st.Root.Sub(name).Ents) }
+	credits0, unspent0 := sub("c"), sub("u")
+	node := &c01TxNode{prev: prev}
+	w := &WalletManager{config: &config.Config{Wallet: config.NewDefWalletConfig()}, db: st.DB, chainParams: config.ChainParams,
+		ksmgr: st.Ks, bucketMeta: st.Meta, utxoStore: st.Utxo, txStore: st.Tx, syncStore: st.Sync, chainFetcher: node}
+	h := &NtfnsHandler{walletMgr: w, mempool: map[wire.Hash]struct{}{}, expiredMempool: map[uint64]map[wire.Hash]struct{}{}}
+	var ready map[string]struct{}
+	err := mwdb.View(st.DB, func(rtx mwdb.ReadTransaction) (e error) {
+		ready, e = h.getReadyWallets(rtx)
+		return
+	})
+	rt.Assert(err == nil, "ready-wallets-read")
+	rel, _, ferr := h.filterTx(tx, nil, nil, ready)
+	rt.Assert(ferr == nil, "pending-transaction-filtered")
+	if ferr != nil {
+		rt.Reach("end")
+		return
+	}
+	rt.Assert(rel == (inMine || outMine), "recorded-iff-it-concerns-the-wallet")
+	check := func(tag string) {
+		_, known := h.mempool[txID]
+		rt.Assert(known == rel, "follower-remembers-exactly-the-relevant-pending-transaction"+tag)
+		want := 0
+		if rel {
+			want = 1
+		}
+		rt.Assert(sub("m") == want, "pending-record-exactly-once"+tag)
+		wantMark, wantCred := 0, 0
+		if inMine {
+			wantMark = 1
+		}
+		if outMine {
+			wantCred = 1
+		}
+		rt.Assert(sub("mi") == wantMark, "spent-coin-marked-exactly-once"+tag)
+		rt.Assert(sub("mc") == wantCred, "created-coin-is-a-pending-credit-only"+tag)
+		rt.Assert(sub("c") == credits0 && sub("u") == unspent0, "nothing-confirmed-changes"+tag)
+	}
+	check("")
+	rel2, _, ferr2 := h.filterTx(tx, nil, nil, ready)
+	rt.Assert(ferr2 == nil && (!rel2 || !rel), "second-announcement-is-not-recorded-again")
+	check("-after-a-second-announcement")
+	rt.Reach("end")
+}
+
+// model of the transaction serialiser used for pending records (symbolic runs only): an injective tagged encoding of
+// the transaction objects seen; anything else fails to decode.
+var c01TxBytesReg []*wire.MsgTx
+
+func c01TxBytesModel(msg *wire.MsgTx, mode wire.CodecMode) ([]byte, error) {
+	for i, t := range c01TxBytesReg {
+		if t == msg {
+			return []byte{0xA7, byte(i)}, nil
+		}
+	}
+	c01TxBytesReg = append(c01TxBytesReg, msg)
+	return []byte{0xA7, byte(len(c01TxBytesReg) - 1)}, nil
+}
+
+func c01TxSetBytesModel(msg *wire.MsgTx, bs []byte, mode wire.CodecMode) error {
+	if len(bs) != 2 || bs[0] != 0xA7 || int(bs[1]) >= len(c01TxBytesReg) {
+		return errors.New("proto: cannot decode transaction")
+	}
+	*msg = *c01TxBytesReg[bs[1]]
+	return nil
+}
